@@ -79,10 +79,16 @@ public class VtlParseServer {
         @Override public void syntaxError(Recognizer<?, ?> r, Object off, int line, int col, String msg, RecognitionException e) {
             if (first != null) return;
             String t = (off instanceof Token) ? ((Token) off).getText() : "";
-            first = "E " + line + " " + col + " " + json(msg) + " " + json(t == null ? "" : t);
+            int ul = 1;
+            if (off instanceof Token) { int a = ((Token) off).getStartIndex(), b = ((Token) off).getStopIndex(); if (b != -1 && b >= a) ul = b - a + 1; }
+            first = "E " + line + " " + col + " " + ul + " " + json(msg) + " " + json(t == null ? "" : t);
         }
     }
     public static void main(String[] a) throws Exception {
+        Thread t = new Thread(null, () -> { try { run(a); } catch (Throwable e) { e.printStackTrace(); System.exit(3); } }, "srv", 1L << 30);
+        t.start(); t.join();
+    }
+    static void run(String[] a) throws Exception {
         String d = a[0];
         ATN latn = new ATNDeserializer().deserialize(readInts(d + "/lexer.atn"));
         ATN patn = new ATNDeserializer().deserialize(readInts(d + "/parser.atn"));
@@ -106,7 +112,9 @@ public class VtlParseServer {
                 CommonTokenStream ts = new CommonTokenStream(lx);
                 P p = new P("Vtl.g4", pv, prules, patn, ts);
                 p.removeErrorListeners(); p.addErrorListener(err);
-                p.getInterpreter().setPredictionMode(h[0].equals("LL") ? PredictionMode.LL : PredictionMode.SLL);
+                boolean prof = h[0].endsWith("P");
+                if (prof) p.setProfile(true);
+                p.getInterpreter().setPredictionMode(h[0].startsWith("LL") ? PredictionMode.LL : PredictionMode.SLL);
                 ParserRuleContext tree = p.parse(0);
                 ts.fill();
                 StringBuilder sb = new StringBuilder();
@@ -114,6 +122,8 @@ public class VtlParseServer {
                 for (Token t : ts.getTokens()) if (t.getType() == ML || t.getType() == SL)
                     sb.append("C ").append(t.getType()).append(' ').append(t.getLine()).append(' ').append(t.getCharPositionInLine()).append(' ').append(json(t.getText())).append('\n');
                 if (err.first != null) sb.append(err.first).append('\n');
+                if (prof) for (DecisionInfo di : p.getParseInfo().getDecisionInfo())
+                    if (di.invocations > 0) sb.append("F ").append(di.decision).append(' ').append(di.invocations).append(' ').append(di.LL_Fallback).append(' ').append(di.ambiguities.size()).append(' ').append(di.SLL_MaxLook).append(' ').append(di.LL_MaxLook).append('\n');
                 out.print(sb); out.print("END\n");
             } catch (Throwable t) {
                 out.print("X " + json(t.toString()) + "\nEND\n");
@@ -121,15 +131,19 @@ public class VtlParseServer {
             out.flush();
         }
     }
-    static void emit(ParseTree n, StringBuilder sb) {
-        if (n instanceof TerminalNode) { Token t = ((TerminalNode) n).getSymbol();
-            sb.append(n instanceof ErrorNode ? "Z " : "T ").append(t.getType()).append(' ').append(t.getLine()).append(' ').append(t.getCharPositionInLine()).append(' ').append(json(t.getText() == null ? "" : t.getText())).append('\n');
-            return; }
-        ParserRuleContext c = (ParserRuleContext) n; Ctx x = (c instanceof Ctx) ? (Ctx) c : null;
-        Token a = c.getStart(), b = c.getStop();
-        sb.append("R ").append(c.getRuleIndex()).append(' ').append(x == null ? 0 : x.primaryAlt).append(' ').append(x == null ? 0 : x.loopAlt).append(' ').append(x != null && x.recursion ? 1 : 0)
-          .append(' ').append(c.getChildCount()).append(' ').append(a == null ? 0 : a.getLine()).append(' ').append(a == null ? 0 : a.getCharPositionInLine())
-          .append(' ').append(b == null ? 0 : b.getLine()).append(' ').append(b == null ? 0 : b.getCharPositionInLine()).append(' ').append(json(b == null || b.getText() == null ? "" : b.getText())).append('\n');
-        for (int i = 0; i < c.getChildCount(); i++) emit(c.getChild(i), sb);
+    static void emit(ParseTree root, StringBuilder sb) {
+        ArrayDeque<ParseTree> st = new ArrayDeque<>(); st.push(root);
+        while (!st.isEmpty()) {
+            ParseTree n = st.pop();
+            if (n instanceof TerminalNode) { Token t = ((TerminalNode) n).getSymbol();
+                sb.append(n instanceof ErrorNode ? "Z " : "T ").append(t.getType()).append(' ').append(t.getLine()).append(' ').append(t.getCharPositionInLine()).append(' ').append(json(t.getText() == null ? "" : t.getText())).append('\n');
+                continue; }
+            ParserRuleContext c = (ParserRuleContext) n; Ctx x = (c instanceof Ctx) ? (Ctx) c : null;
+            Token a = c.getStart(), b = c.getStop();
+            sb.append("R ").append(c.getRuleIndex()).append(' ').append(x == null ? 0 : x.primaryAlt).append(' ').append(x == null ? 0 : x.loopAlt).append(' ').append(x != null && x.recursion ? 1 : 0)
+              .append(' ').append(c.getChildCount()).append(' ').append(a == null ? 0 : a.getLine()).append(' ').append(a == null ? 0 : a.getCharPositionInLine())
+              .append(' ').append(b == null ? 0 : b.getLine()).append(' ').append(b == null ? 0 : b.getCharPositionInLine()).append(' ').append(json(b == null || b.getText() == null ? "" : b.getText())).append('\n');
+            for (int i = c.getChildCount() - 1; i >= 0; i--) st.push(c.getChild(i));
+        }
     }
 }
